@@ -251,7 +251,10 @@ func includeHeader(hdr string, signedHdrs []string) bool {
 }
 
 func IsBigDataAction(ctx *fiber.Ctx) bool {
-	if ctx.Method() == http.MethodPut && len(strings.Split(ctx.Path(), "/")) >= 3 {
+	// object-level means a non-empty key after the bucket: "PUT /bucket/" is routed to the
+	// bucket handler, which does not read the body
+	_, key, _ := strings.Cut(strings.TrimPrefix(ctx.Path(), "/"), "/")
+	if ctx.Method() == http.MethodPut && key != "" {
 		// only requests whose handler streams the body into the backend: for every other
 		// object-level PUT the signature is verified before the handler runs
 		if !ctx.Request().URI().QueryArgs().Has("tagging") && ctx.Get("X-Amz-Copy-Source") == "" && !ctx.Request().URI().QueryArgs().Has("acl") &&
